@@ -237,6 +237,37 @@ def judge(ctx, c):
             fin = np.isfinite(want)
             ctx.close("C08.imbalance==gen+diss-dEdt", np.asarray(im0.values)[fin], want[fin],
                       atol=1e-12 * float(np.max(np.abs(want[fin]), initial=0)), rtol=1e-10, case=wit, key="C08:imbalance")
+    # ---- the same balance object and the same spectrum object after update_parameters() (the calibration loop's
+    #      pattern): the imbalance must be generation + dissipation - dE/dt of terms carrying the NEW parameters
+    if itype == "u10" and c.get("upd") and dis_name == "st4":
+        hb = wl.make_balance(gen_name, dis_name, c.get("gen_params"), c.get("dis_params"))
+        sdot_h = wl.build(c, np.asarray(c["dEdt"], float))
+        wit_h = lambda: {"gen": c, "update_parameters_history": True}  # noqa
+        ok0, _ = guarded(ctx, "C08.no-exception", lambda: (hb.evaluate_imbalance(u, wd, s, sdot_h), hb.evaluate_bulk_imbalance(u, wd, s, sdot_h)),
+                         wit_h, key="C08:exception:imbalance")
+        upd = dict(c["upd"])
+        hb.update_parameters(upd)
+        ok1, after = guarded(ctx, "C08.no-exception", lambda: (hb.evaluate_imbalance(u, wd, s, sdot_h), hb.evaluate_bulk_imbalance(u, wd, s, sdot_h)),
+                             wit_h, key="C08:exception:imbalance")
+        fresh = wl.make_balance(gen_name, dis_name, dict(c.get("gen_params") or {}), dict(c.get("dis_params") or {}))
+        fresh.update_parameters(upd)
+        s_new = wl.build(c)
+        ok2, parts = guarded(ctx, "C08.no-exception",
+                             lambda: (fresh.generation.rate(s_new, u, wd), fresh.dissipation.rate(s_new),
+                                      fresh.generation.bulk_rate(s_new, u, wd), fresh.dissipation.bulk_rate(s_new)), wit_h,
+                             key="C08:exception:imbalance")
+        if ok0 and ok1 and ok2:
+            ctx.count("C08.update_parameters_histories")
+            want = np.asarray(parts[0].values) + np.asarray(parts[1].values) - np.asarray(c["dEdt"], float)
+            got = np.asarray(after[0].values, float)
+            fin = np.isfinite(want)
+            ctx.close("C08.imbalance==gen+diss-dEdt", got[fin], want[fin], atol=1e-12 * float(np.max(np.abs(want[fin]), initial=0)), rtol=1e-10,
+                      case=wit_h, key="C08:imbalance:after-update_parameters")
+            wantb = np.asarray(parts[2].values) + np.asarray(parts[3].values) - np.asarray(sdot_h.m0().values)
+            gotb = np.asarray(after[1].values, float)
+            fin = np.isfinite(wantb)
+            ctx.close("C08.bulk-imbalance==gen+diss-m0(dEdt)", gotb[fin], wantb[fin], atol=1e-11 * float(np.max(np.abs(wantb[fin]), initial=0)),
+                      rtol=1e-9, case=wit_h, key="C08:bulk-imbalance:after-update_parameters")
     # ---- batch independence
     if n > 1:
         for i in range(min(n, 3)):
@@ -296,6 +327,9 @@ def make(rng, i):
               "scale": float(rng.uniform(0.3, 3.0)),
               "dEdt": rng.normal(0, 1e-6, E.shape) * (E > 0),
               "perm": rng.permutation(E.shape[0]), "check_default": bool(i % 2 == 0)})
+    if rng.uniform() < 0.9:
+        c["upd"] = [{"saturation_breaking_constant": 3.0e-5}, {"saturation_threshold": 0.0008, "growth_parameter_betamax": 1.3},
+                    {"saturation_breaking_constant": 1.2e-5, "saturation_threshold": 0.0011}][int(rng.integers(0, 3))]
     if rng.uniform() < 0.6:
         c["sib_widths"] = rng.uniform(0.5, 1.5, E.shape[-1])
         c["sib_start"] = float(rng.uniform(0, 360))
